@@ -1,4 +1,3 @@
 package main
 
-func genCollections(repo string) string { panic(unsupported{msg: "collections generator not built yet"}) }
 func genInventory(repo string) string   { panic(unsupported{msg: "inventory generator not built yet"}) }
